@@ -176,6 +176,21 @@ Section Solve.
     | Some (_, s) => Some (result_of (sat_o (clauses s)))
     end.
 
+  (* the third component solve returns, the "quality" it also prints: the objective of the model
+     relative to float(ratio - 1) * carrier.theoreticalBestArea ([tba], set by main to the sum of
+     area(b, True), read by solve).  Repaired (fixes/C08-quality-zero-division.diff): 0 when that
+     product is 0 (all occupied areas truncate to 0, or ratio = 1) - the unrepaired code raised
+     ZeroDivisionError after the solver had found a shape.  "Insat" returns quality 0. *)
+  Definition quality_of (tba : Z) (ans : option valuation) : Qc :=
+    match ans with
+    | None => 0%Qc
+    | Some e => let best := ((ratio - 1) * ZQc tba)%Qc in
+                if Qceqb best 0%Qc then 0%Qc else (ZQc (evalexpr e objective) / best)%Qc
+    end.
+  (* main (rect.py:479-481): carrier.theoreticalBestArea = sum over the blocks of area(b, True) *)
+  Definition theoretical_area : Z :=
+    fold_left (fun acc b => (acc + area factor (cel inp b) true)%Z) (blocks C) 0%Z.
+
   (* the cost of a cell selection: sum over the selected cells of int(ratio) * sel - real *)
   Definition cell_cost (b : nat) : Z :=
     (Ztrunc ratio * area factor (cel inp b) true - area factor (cel inp b) false)%Z.
